@@ -23,7 +23,7 @@ func init() {
 			{Name: "retry-not-rearmed", File: "pubsub.go", Old: "\t\tp.tracer.DropRPC(out, pid)\n\t\tgo p.announceRetry(pid, topic, sub)\n\t\treturn\n", New: "\t\tp.tracer.DropRPC(out, pid)\n\t\treturn\n", Expect: "R05.5"},
 			{Name: "double-cancel-unannounces", File: "pubsub.go", Old: "\tif subs == nil {\n\t\treturn\n\t}\n\n\tsub.err = ErrSubscriptionCancelled", New: "\tsub.err = ErrSubscriptionCancelled", Expect: "R05.2"},
 			{Name: "retry-unsub-always", File: "pubsub.go", Old: "\t\tif (ok && sub) || (!ok && !sub) {\n\t\t\tp.doAnnounceRetry(pid, topic, sub)\n\t\t}", New: "\t\tif ok && !sub {\n\t\t\treturn\n\t\t}\n\t\tp.doAnnounceRetry(pid, topic, sub)", Expect: "R05.5"},
-			{Name: "acceptfrom-before-subscriptions", File: "pubsub.go", Old: "\tp.tracer.RecvRPC(rpc)\n\n\tsubs := rpc.GetSubscriptions()", New: "\tp.tracer.RecvRPC(rpc)\n\n\tif p.rt.AcceptFrom(rpc.from) == AcceptNone {\n\t\treturn\n\t}\n\tsubs := rpc.GetSubscriptions()", Expect: "R05.6"},
+			{Name: "acceptfrom-before-subscriptions", File: "pubsub.go", Old: "\t\treturn\n\t}\n\n\tsubs := rpc.GetSubscriptions()", New: "\t\treturn\n\t}\n\n\tif p.rt.AcceptFrom(rpc.from) == AcceptNone {\n\t\treturn\n\t}\n\tsubs := rpc.GetSubscriptions()", Expect: "R05.6"},
 			{Name: "closed-incoming-keeps-topics", File: "pubsub.go", Old: "\tp.clearPeerFromTopicsState(pid)\n\tp.rt.OnClosedIncomingStream(pid, proto)", New: "\tif _, ok := p.peers[pid]; !ok {\n\t\tp.clearPeerFromTopicsState(pid)\n\t}\n\tp.rt.OnClosedIncomingStream(pid, proto)", Expect: "R05.6"},
 			{Name: "deadpeer-keeps-topics", File: "pubsub.go", Old: "\t\t\tcontinue\n\t\t}\n\n\t\tp.clearPeerFromTopicsState(pid)\n\t}\n}\n", New: "\t\t\tcontinue\n\t\t}\n\t}\n}\n", Expect: "R05.6"},
 			{Name: "deadpeer-gives-up-keeping-topics", File: "pubsub.go", Old: "\t\t\t\tp.logger.Debug(\"error updating backoff\", \"err\", err, \"peer\", pid)\n\t\t\t\tp.clearPeerFromTopicsState(pid)\n\t\t\t\tcontinue\n", New: "\t\t\t\tp.logger.Debug(\"error updating backoff\", \"err\", err, \"peer\", pid)\n\t\t\t\tcontinue\n", Expect: "R05.6"},
@@ -589,9 +589,16 @@ func runC05(c *RuleCtx) {
 				return v.Kind == "tuple" && v.Name == "1" && v.Args[0].IsCall("SubscriptionFilter.FilterIncomingSubscriptions")
 			}, "!=", isNilV)
 			anyErr := AtomCmp("err != nil", isErrorVar, "!=", isNilV)
+			// ... and except for a blacklisted sender, which is in no topic (C16 R16.8)
+			blFrom := AtomBool("blacklist.Contains(rpc.from)", func(v *V) bool {
+				return v.IsCall(fnBLContains) && len(v.Args) == 2 && v.Args[1].IsField("RPC.from")
+			})
 			cut := g.CutAny(AtomWant{inspErr, true}, AtomWant{filtErr, true}, AtomWant{anyErr, true})
+			for _, e := range g.AtomEdges(blFrom, true) {
+				cut[e] = true
+			}
 			ok, _ := g.MustPass(g.Entry(), PassOpts{Cut: cut}, func(n ast.Node) bool { return n == ast.Node(subsLoop.X) })
-			c.Check(ok, "R05.6", f.Name, "subscriptions of every inspected RPC are processed", subsLoop, "the loop is on every path except inspector rejection / filter error", "an RPC can be dropped before its subscription announcements are processed")
+			c.Check(ok, "R05.6", f.Name, "subscriptions of every inspected RPC are processed", subsLoop, "the loop is on every path except inspector rejection / filter error / blacklisted sender", "an RPC can be dropped before its subscription announcements are processed")
 			if early, n := LoopHasEarlyExit(subsLoop); early {
 				c.Bad("R05.6", f.Name, "subscription loop exhaustive", n, "the loop over subscriptions can be left early")
 			}
